@@ -105,6 +105,11 @@ impl Entry for SEntry {
     fn write<'a>(&'a self, w: &mut impl EntryWriter<'a>) {
         w.timestamp(SystemTime::UNIX_EPOCH + Duration::from_secs(1_700_000_000));
         w.value("id", &self.id);
+        // metrics of every shape a record can carry (name -> occurrences of each of its observations: SHAPES)
+        w.value("rep1", &ObsVal(&[metrique_writer::Observation::Repeated { total: 2.5, occurrences: 1 }]));
+        w.value("rep3", &ObsVal(&[metrique_writer::Observation::Repeated { total: 7.5, occurrences: 3 }]));
+        w.value("multi", &ObsVal(&[metrique_writer::Observation::Unsigned(4), metrique_writer::Observation::Floating(0.25), metrique_writer::Observation::Repeated { total: 12.0, occurrences: 2 }]));
+        w.value("flt", &ObsVal(&[metrique_writer::Observation::Floating(1.5)]));
     }
     fn sample_group(&self) -> impl Iterator<Item = SampleGroupElement> {
         [(Cow::Borrowed("op"), Cow::Owned(self.group.clone()))].into_iter()
@@ -131,20 +136,44 @@ impl SampledFormat for RecFormat {
     }
 }
 
+/// a value that writes the given observations as one metric
+struct ObsVal(&'static [metrique_writer::Observation]);
+impl metrique_writer::Value for ObsVal {
+    fn write(&self, writer: impl metrique_writer::ValueWriter) {
+        writer.metric(self.0.iter().copied(), metrique_writer::Unit::None, [], metrique_writer::MetricFlags::empty());
+    }
+}
+
+/// occurrences of each observation of the metrics `SEntry` writes
+const SHAPES: [(&str, &[u64]); 5] = [("id", &[1]), ("rep1", &[1]), ("rep3", &[3]), ("multi", &[1, 1, 2]), ("flt", &[1])];
+
+/// The weight applied to every count of the sampled record: count / occurrences, for every observation of every
+/// metric (u64::MAX when saturated). A metric written as a plain number carries no count, i.e. the implicit weight 1.
 fn counts_in(out: &[u8]) -> Vec<u64> {
     let mut v = vec![];
     for line in out.split(|b| *b == b'\n').filter(|l| !l.is_empty()) {
         if let Ok(j) = serde_json::from_slice::<Value>(line) {
             if let Some(o) = j.as_object() {
-                for (_, val) in o {
+                for (name, occ) in SHAPES {
+                    let Some(val) = o.get(name) else {
+                        v.push(0); // a metric of the entry is missing from the record
+                        continue;
+                    };
                     if let Some(c) = val.get("Counts").and_then(|c| c.as_array()) {
-                        for x in c {
-                            if let Some(n) = x.as_u64() {
-                                v.push(n);
-                            } else if let Some(f) = x.as_f64() {
-                                v.push(f as u64);
-                            }
+                        if c.len() != occ.len() {
+                            v.push(0);
                         }
+                        for (x, k) in c.iter().zip(occ.iter()) {
+                            // (counts beyond 2^53 are printed as floats; a saturated weight stays saturated)
+                            let n = x.as_u64().unwrap_or_else(|| x.as_f64().unwrap_or(0.0) as u64);
+                            let saturated = n == u64::MAX || x.as_f64().map(|f| f >= 1.8e19).unwrap_or(false);
+                            if saturated && *k > 1 {
+                                continue; // occurrences x weight does not fit: the count saturates, whatever the weight was
+                            }
+                            v.push(if saturated { u64::MAX } else if n % k == 0 { n / k } else { 0 });
+                        }
+                    } else if val.is_number() {
+                        v.push(1);
                     }
                 }
             }
@@ -333,7 +362,7 @@ impl Scenario for FixedFraction {
                 // probability of the weight seen for small draws
                 let p_low = alpha_draw;
                 let expect = if low_is_n { p_low * n as f64 + (1.0 - p_low) * (n + 1) as f64 } else { p_low * (n + 1) as f64 + (1.0 - p_low) * n as f64 };
-                if (expect - inv).abs() > 1e-6 * inv.max(1.0) {
+                if (expect - inv).abs() > 1e-9 * inv.max(1.0) {
                     r.violation = Some(Violation::new(
                         "weight_biased",
                         format!("rate {rate:e}: weights {n}/{} switch at draw {alpha_draw}; expectation {expect} differs from 1/rate = {inv}", n + 1),
@@ -343,7 +372,7 @@ impl Scenario for FixedFraction {
                 r.probe("unbiasedness_bisected", 1);
             } else if inv < 2f64.powi(40) {
                 // one weight for every draw: 1/rate must be (numerically) that integer
-                if (n_lo[0] as f64 - inv).abs() > 1e-6 * inv {
+                if (n_lo[0] as f64 - inv).abs() > 1e-9 * inv {
                     r.violation = Some(Violation::new("weight_biased", format!("rate {rate:e}: every draw gives weight {}, but 1/rate = {inv}", n_lo[0])));
                     break 'rates;
                 }
